@@ -47,12 +47,20 @@ def shuffled(ld, kind, n, b, rngkind, seed, dict_backed=False):
     ds = ld.new(src)
     rng = make_rng(rngkind, seed)
     kw = {} if rng is None else {'rng': rng}
+    if (n + seed) % 2 and rng is not None:
+        # the positional call form shuffle(reshuffle, rng, buffer_size)
+        if kind == 'once':
+            return ds.shuffle(False, rng)
+        if kind == 'reshuffle':
+            return ds.shuffle(True, rng)
+        if kind == 'local':
+            return ds.shuffle(True, rng, b)
     if kind == 'once':
-        return ds.shuffle(False, **kw)
+        return ds.shuffle(reshuffle=False, **kw)
     if kind == 'reshuffle':
-        return ds.shuffle(True, **kw)
+        return ds.shuffle(reshuffle=True, **kw)
     if kind == 'local':
-        return ds.shuffle(True, buffer_size=b, **kw)
+        return ds.shuffle(reshuffle=True, buffer_size=b, **kw)
     if kind == 'reshuffle+catch':
         # catch() iterates a frozen copy made at the start of every iteration
         return ds.shuffle(True, **kw).catch()
@@ -173,7 +181,8 @@ def check_tile(ld, n, r, seed, res):
     res.case(('tile', n, r, seed), nontrivial=n >= 2 and r >= 2)
     np.random.seed(seed)
     try:
-        ds = ld.new(list(range(n))).tile(r, shuffle=True)
+        ds = ld.new(list(range(n))).tile(r, True) if (n + r) % 2 else \
+            ld.new(list(range(n))).tile(reps=r, shuffle=True)
         outs = [list(ds), list(ds)]
     except BaseException as e:
         res.violation('tile-raised', case, exc_sig(e))
